@@ -376,16 +376,23 @@ def tag_count_order(w, fn):
     b = C.body(w, fn)
     cf = cfgmod.cfg_of(b)
     coll = [l for l in range(b.arg_count + 1, len(b.locals)) if re.fullmatch(r"S::vec::Vec<S::vec::Vec<(S::string::String|.*Cow<.*str>)>>", C.tyn(b.locals[l]["ty"])) and l in b.names()]
+    if len(coll) > 1:
+        # the collection handed on by value (to an inlined helper's parameter): the original is the one that is not a move target
+        targets = set()
+        for l in coll:
+            targets |= set(C.move_targets_plain(b, l)) - {l}
+        coll = [l for l in coll if l not in targets]
     if len(coll) != 1:
         return None, [], []
     coll = coll[0]
+    aliases = set(C.move_targets_plain(b, coll)) | {coll}
     counts = []
     for bb, t in cfgmod.calls(b):
         c = cfgmod.callee(t) or ""
         if "Iterator" in c and c.rsplit("::", 1)[-1] in ("fold", "max", "max_by_key", "reduce"):
             a = t["args"][0]
             p = a.get("move") or a.get("copy")
-            if p and coll in C.backward_locals(b, p["local"]):
+            if p and aliases & C.backward_locals(b, p["local"]):
                 counts.append(bb)
     late = []
     for cb in counts:
@@ -418,6 +425,13 @@ def tag_padding_amounts(w, fn):
                 la = C.backward_locals(b, pa["local"])
                 cb, _, _ = C.backward_slice(b, pb["local"])
                 out.append((i, bool(count_dests & la), any(c.endswith("Vec::len") for c in cb)))
+    # the other idiom: grow the flat vector to the end of the character's row, `tags.resize(row start + slot count, None)`
+    for bb, t in cfgmod.calls(b):
+        if (cfgmod.callee(t) or "").endswith("Vec::resize") and len(t["args"]) == 3:
+            p1 = t["args"][1].get("copy") or t["args"][1].get("move")
+            if p1 and count_dests & C.backward_locals(b, p1["local"]):
+                cb, _, _ = C.backward_slice(b, p1["local"])
+                out.append((bb, True, any(c.endswith("Vec::len") for c in cb)))
     return out
 
 
@@ -558,3 +572,88 @@ def slot_range_rule(chk, w, rule, fn, floor):
                "the tags of one character are written up to slot `%s`; expected the index of the last present tag + 1 (rposition(is_some).map_or(0, |x| x + 1) or an equivalent form): every slot "
                "up to AND INCLUDING the last present tag (otherwise the last tag of that character is not written and is lost on re-parsing)" % (detail,), site=C.site(C.body(w, fn), bb),
                sample={"kind": kind, "bound": str(detail)[:200]})
+
+
+SHRINKERS = ("truncate", "pop", "remove", "drain", "retain", "retain_mut", "insert", "split_off", "set_len", "replace_range", "dedup", "dedup_by", "dedup_by_key",
+             "swap_remove", "resize", "resize_with", "swap", "reverse", "sort", "sort_unstable", "rotate_left", "rotate_right", "insert_str")
+
+
+def append_only_rule(chk, w, rule, fn, buf_param=2):
+    """a writer builds its output by appending: after the initial clear() nothing that was written is removed, moved or
+    overwritten (no truncate / pop / remove / drain / retain / insert / resize / sort ... on the output buffer or its byte vector)"""
+    b = C.body(w, fn)
+    bad = []
+    n = 0
+    for bb, t in cfgmod.calls(b):
+        c = cfgmod.callee(t) or ""
+        if not (c.startswith("alloc::vec::Vec") or c.startswith("alloc::string::String") or c.startswith("[T]::") or c.startswith("str::")) or not t["args"]:
+            continue
+        p0 = t["args"][0].get("move") or t["args"][0].get("copy")
+        if not p0 or buf_param not in C.backward_locals(b, p0["local"], depth=12):
+            continue
+        n += 1
+        m = c.split("::")[-1]
+        if m in SHRINKERS:
+            bad.append((bb, c))
+    chk.floor(rule, "operations on the output buffer", n, 3)
+    chk.ob(rule, "writer:%s:append-only" % fn.split("::")[-1], not bad,
+           "%s removes / moves what it has already written to the output buffer (%s): the text is no longer the concatenation of what the token loop emitted"
+           % (fn, [c for _, c in bad]), site=C.site(b, bad[0][0] if bad else None), sample={"calls": [c for _, c in bad]})
+
+
+def tag_flatten_rule(chk, w, rule, parser):
+    """the parsers collect, per character, the list of its tag strings (an empty string where the slot is left empty) and then
+    flatten the lists into the sentence's tag vector: EVERY collected string becomes exactly one entry, in order - an absent entry
+    for the empty string, the string otherwise.  Dropping (filtering) the empty ones moves later tags into earlier categories."""
+    b = C.body(w, parser)
+    cf = cfgmod.cfg_of(b)
+    loops = cf.natural_loops()
+    it = absint.Interp(w, b, models=effects.EXTRA_MODELS, summaries=C.summaries(w))
+    targs = [i for i in range(1, b.arg_count + 1) if "Option<S::borrow::Cow" in C.tyn(b.locals[i]["ty"]) and C.tyn(b.locals[i]["ty"]).startswith("&mut S::vec::Vec<")]
+    short = parser.split("::")[-1]
+    if len(targs) != 1:
+        chk.undecided(rule, "parser:%s:flatten" % short, "tag vector parameter not found", site=C.site(b))
+        return
+    tp = (("A", targs[0]),)
+    cand = []
+    for h, blks in loops.items():
+        for bb, t in cfgmod.calls(b):
+            if bb in blks and (cfgmod.callee(t) or "").endswith("::next") and cf.innermost_loop_of(bb)[0] == h \
+                    and C.tyn(b.locals[t["dest"]["local"]]["ty"]) == "S::option::Option<S::string::String>":
+                cand.append((h, blks, bb))
+    rows = set()
+    for h, blks, nbb in cand:
+        pre = [o for o in it.run(0, stop=[h]) if o.kind == "stop"]
+        if not pre:
+            continue
+        n0 = len(pre[0].trace)
+        for o in it.run(h, stop=set(cf.blocks) - blks, env=pre[0].env, cons=pre[0].cons, stop_at_entry_again=True, trace=pre[0].trace):
+            if o.kind != "stop" or o.info != h:
+                continue
+            item = o.cons.get("ret:%d" % nbb)
+            if not item or item[2] != "Some":
+                continue
+            tr = o.trace[n0:]
+            emp = None
+            for e in tr:
+                if e[0] == "call" and (e[2] or "").endswith("::is_empty"):
+                    r = it.resolve(o, absint.SYM("ret:%d" % e[1]))
+                    c_ = o.cons.get("ret:%d" % e[1])
+                    emp = r[1] if r[0] == "b" else (c_[1][1] if c_ and c_[0] == "eq" else None)
+                    if emp is None and e[3] and e[3][0][0] == "ref":
+                        # emptiness is modelled as a case split on the tested string itself
+                        pv = o.env.get(tuple(e[3][0][1]) + (("f", "<empty?>"),))
+                        if pv is None:
+                            pv = o.env.get(tuple(effects.strip_content(tuple(e[3][0][1]))) + (("f", "<empty?>"),))
+                        emp = pv[1] if pv and pv[0] == "b" else None
+            ps = []
+            for e in tr:
+                if e[0] == "push" and e[2][:1] == tp:
+                    v = it.resolve(o, e[3])
+                    ps.append(v[2] if v[0] == "var" else "?")
+            rows.add((emp, tuple(ps)))
+    chk.floor(rule, "flatten loops of %s" % short, len(cand), 1)
+    want = {(True, ("None",)), (False, ("Some",))}
+    chk.ob(rule, "parser:%s:one-entry-per-collected-tag" % short, rows == want,
+           "flattening the collected tag strings in %s does (string empty?, entries pushed) = %s; expected one absent entry for an empty string and one present entry otherwise, "
+           "so that every tag keeps the position of its `/` separator" % (parser, sorted(rows, key=str)), site=C.site(b, cand[0][0] if cand else None), sample={"rows": sorted(map(str, rows))})
